@@ -28,7 +28,7 @@ ASSUMPTIONS = [
 DEPTH = {"quick": 3, "thorough": 4}
 T0 = 1_700_000_000.0
 MODS = [("same", 1.0), ("same", 3600.0), ("other", 0.0), ("other", 1.0), ("other", 3600.0), ("touch", 1.0), ("touch", 3600.0), ("restore", 1.0)]
-FORMS = ["etag", "lm", "both", "list", "weak", "weak-list", "weak-list-nospace", "star", "both-reversed", "head:etag", "head:both-reversed", "head:star", "list-20", "weak-list-40"]
+FORMS = ["etag", "lm", "both", "list", "weak", "weak-list", "weak-list-nospace", "star", "both-reversed", "head:etag", "head:both-reversed", "head:star", "list-20", "weak-list-40", "list-latin1"]
 
 
 class VStat:
@@ -166,6 +166,8 @@ def validator_headers(form, v):
     form = form.split(":")[-1]
     if form == "both-reversed":
         return [("If-Modified-Since", lm), ("If-None-Match", et)]
+    if form == "list-latin1":  # another member carries a byte above 0x7F that is not UTF-8
+        return [("If-None-Match", f'"caf\xe9", {et}')]
     if form == "list-20":  # a long list with the tag at the end
         return [("If-None-Match", ", ".join([f'"other{i}"' for i in range(19)] + [et]))]
     if form == "weak-list-40":
